@@ -392,6 +392,32 @@ def tower_fit(ctx, cov):
     cov["tower_linear_fit_depth_30_60_120"] = fit
 
 
+def long_bodies(ctx, cov):
+    """thousands of memoised positions in ONE body (tables, counters and caps sized for small inputs): the implementation
+    alone, judged by the property's oracle (memo on = memo off, every evaluation stored once); the extracted model is
+    quadratic in the body length and is not run here"""
+    hb = diff.Engines.harness()
+    cs = ["B:" + pc.enc("\n".join(st % i for i in range(n)))
+          for n in ((2500, 6000) if ctx.quick else (2500, 6000, 12000, 30000)) for st in ("x%d = a + 1", "f(%d, b[c])", "if a%d\n y = (1)\nendif")]
+    outs = core.run_lines(hb, "memo", cs, shards=min(core.NCPU, len(cs)))
+    miss = core.run_lines(hb, "memomiss", cs, shards=min(core.NCPU, len(cs)))
+    for c, o, m in zip(cs, outs, miss):
+        bad = oracle(c, o)
+        if not bad:
+            p = m.split("|")
+            if len(p) != 8:
+                bad = "the evaluation log run did not return normally: " + m[:200]
+            elif p[4] != "0" or p[5] != "0":
+                bad = "a memoised parser was evaluated again at a position (%s repeats) or an evaluation was not stored (%s)" % (p[4], p[5])
+        if bad:
+            path = core.write_replay(ctx.pid, ctx.seed, {"engine": "memo", "case": c, "case_readable": describe(c)[:300],
+                                                       "observed": o[:600], "expected": bad})
+            v = core.Violation(bad, path, True)
+            v.coverage = cov
+            raise v
+    cov["long_bodies_implementation_only"] = len(cs)
+
+
 def attribute_crash(ctx, cases, v):
     """a crashed harness process answers CRASH for every case it had not reached: name the case it died on"""
     import json
@@ -421,6 +447,7 @@ def correspondence(ctx, broken_obligations=()):
     pre = {"programs": len(cases), "evaluations": len(cases)}
     miss_pass(ctx, cases, pre)
     tower_fit(ctx, pre)
+    long_bodies(ctx, pre)
     try:
         cov = diff.differential(ctx, "memo", cases, oracle=oracle, shrinker=shrinker, nontrivial=nontrivial, describe=describe)
     except core.Violation as v:
